@@ -134,7 +134,7 @@ def runImp (prop fS tyS srcS extS implS00 : String) : Result :=
             match Base64.decode s with
             | some b =>
               if b.length != w then some "ill-sized-payload-accepted"
-              else if ty != .bool && ((reS.bind Dyn.parse?).map (·.show)) != some (Dyn.str s).show then some "accepted-bytes-not-re-emitted"
+              else if ty != .bool && ((reS.bind Dyn.parse?).map (·.show)) != some (Dyn.str (Base64.encode b)).show then some "accepted-bytes-not-re-emitted"
               else none
             | none => some "invalid-base64-accepted"
           | _, _, _ => none
